@@ -19,6 +19,7 @@ import (
 	"net"
 	"os"
 	"runtime"
+	"strconv"
 	"strings"
 	"sync"
 	"sync/atomic"
@@ -38,12 +39,13 @@ var c12WarmOnce sync.Once
 // handshake into a timeout); shorter only where the scripted peer stays silent and the timeout IS the expected outcome,
 // and even there far above the time the script itself needs (n x 40 ms).
 const c12InitTimeout = 5 * time.Second
-const c12SilentTimeout = 1200 * time.Millisecond
+const c12SilentTimeout = 2000 * time.Millisecond
 
 type c12Run struct {
 	prefix string
 	base   int // descriptors open before the scenario's connection was created
 	gor    int // goroutines alive then
+	pre    map[int]bool // the descriptors open then
 	fail   string
 	key    string
 	tags   map[string]bool
@@ -99,6 +101,47 @@ func c12SocketPair() (net.Conn, int, error) {
 		return nil, -1, err
 	}
 	return conn, fds[1], nil
+}
+
+// c12FdSet: the descriptors open now
+func c12FdSet() map[int]bool {
+	m := map[int]bool{}
+	ents, _ := os.ReadDir("/proc/self/fd")
+	for _, e := range ents {
+		m[vAtoi(e.Name())] = true
+	}
+	return m
+}
+
+// c12OutQ: bytes the scripted peer wrote that the real end has not read yet
+func c12OutQ(fd int) int {
+	v, err := syscall.IoctlGetInt(fd, syscall.TIOCOUTQ)
+	if err != nil {
+		return 0
+	}
+	return v
+}
+
+// c12RealBlocked: some thread of this process sits in read(2) / recvmsg(2) on a descriptor that was opened after `pre`
+// was taken and is not the scripted peer's: the real end has handled everything it was sent and waits for more
+func c12RealBlocked(pre map[int]bool, raw int) bool {
+	ents, _ := os.ReadDir("/proc/self/task")
+	for _, e := range ents {
+		b, err := os.ReadFile("/proc/self/task/" + e.Name() + "/syscall")
+		if err != nil {
+			continue
+		}
+		f := strings.Fields(string(b))
+		if len(f) < 2 || (f[0] != "0" && f[0] != "47") {
+			continue
+		}
+		fd, err := strconv.ParseInt(strings.TrimPrefix(f[1], "0x"), 16, 64)
+		if err != nil || int(fd) == raw || pre[int(fd)] {
+			continue
+		}
+		return true
+	}
+	return false
 }
 
 func c12CountFds() int {
@@ -490,7 +533,7 @@ func (c *c12Run) run(f []string) string {
 		return "c=init-error sent="
 
 	case len(f) >= 2 && f[0] == "srv" && (f[1] == "eof" || f[1] == "silent" || f[1] == "deaf"):
-		c.base, c.gor = c12CountFds(), runtime.NumGoroutine()
+		c.base, c.gor, c.pre = c12CountFds(), runtime.NumGoroutine(), c12FdSet()
 		conn, raw, err := c12SocketPair()
 		if err != nil {
 			return "bad-op"
@@ -509,7 +552,7 @@ func (c *c12Run) run(f []string) string {
 		if f[1] == "memfd" {
 			mt = MemMapTypeMemFd
 		}
-		c.base, c.gor = c12CountFds(), runtime.NumGoroutine()
+		c.base, c.gor, c.pre = c12CountFds(), runtime.NumGoroutine(), c12FdSet()
 		conn, raw, err := c12SocketPair()
 		if err != nil {
 			return "bad-op"
@@ -541,8 +584,23 @@ func (c *c12Run) drive(fk *c12Fake, ch chan c12Res, msgs []string, tail string, 
 			}
 		}
 	}
+	// settle: wait until the real end has read everything it was sent and sits in its next blocking read (or has
+	// returned), then collect what it replied. A fixed pause here made the outcome depend on the load of the machine.
+	settle := func() {
+		if runtime.GOARCH != "amd64" || c.pre == nil {
+			poll(40 * time.Millisecond)
+			return
+		}
+		for t0 := time.Now(); time.Since(t0) < 4*time.Second && !done; {
+			poll(2 * time.Millisecond)
+			if !done && c12OutQ(fk.fd) == 0 && c12RealBlocked(c.pre, fk.fd) {
+				break
+			}
+		}
+		poll(3 * time.Millisecond)
+	}
 	if role == "c" {
-		poll(40 * time.Millisecond)
+		settle()
 	}
 	if tail == "deaf" && len(msgs) == 0 {
 		syscall.Shutdown(fk.fd, syscall.SHUT_RD)
@@ -559,7 +617,7 @@ func (c *c12Run) drive(fk *c12Fake, ch chan c12Res, msgs []string, tail string, 
 		if err := c.fakeSend(fk.fd, m, own); err != nil {
 			break
 		}
-		poll(40 * time.Millisecond)
+		settle()
 	}
 	if tail == "eof" || tail == "deaf" {
 		poll(20 * time.Millisecond)
